@@ -86,7 +86,7 @@ class Ctx:
         self.seed = seed
         self.replay = replay
         self.t0 = time.time()
-        self.work = os.path.join(WORK, prop)
+        self.work = os.path.join(WORK, prop) if OUT == ROOT else os.path.join(OUT, "work", prop)
         os.makedirs(self.work, exist_ok=True)
         os.makedirs(BIN, exist_ok=True)
         self.violations = []      # list of dict(kind, detail, replay)
